@@ -356,8 +356,34 @@ class C15(Prop):
         if fmt != "edif":
             return [(join(fmt, toks[:i]), False, "truncate")]
         if kind == "dangling":
-            roles = ["cellref", "libraryref", "instanceref", "portref", "member"]
+            roles = ["cellref", "libraryref", "instanceref", "portref", "member", "libraryref-other"]
             role = roles[w % len(roles)]
+            if role == "libraryref-other":
+                # a cellRef pointed at another DECLARED library that has no such cell: as dangling as
+                # an undeclared name (a resolver remembering cells by identifier alone would bind it)
+                libs, cur = {}, None
+                for k in range(n - 2):
+                    if toks[k] == "(" and toks[k + 1].lower() in ("library", "external"):
+                        nm = toks[k + 2] if toks[k + 2] != "(" else toks[k + 4]
+                        cur = nm.lower()
+                        libs.setdefault(cur, set())
+                    elif toks[k] == "(" and toks[k + 1].lower() == "cell" and cur is not None:
+                        nm = toks[k + 2] if toks[k + 2] != "(" else toks[k + 4]
+                        libs[cur].add(nm.lower())
+                refs = [k for k in range(n - 5) if toks[k].lower() == "cellref" and toks[k + 2] == "("
+                        and toks[k + 3].lower() == "libraryref"]
+                cands = []
+                for k in refs:
+                    cell, lib = toks[k + 1].lower(), toks[k + 4].lower()
+                    for other in sorted(libs):
+                        if other != lib and cell not in libs[other]:
+                            cands.append((k, other))
+                if not cands:
+                    return [(join(fmt, toks[:i]), False, "truncate")]
+                k, other = cands[pos % len(cands)]
+                t2 = list(toks)
+                t2[k + 4] = other
+                return [(join(fmt, t2), True, "dangling-libraryref-other")]
             idx = [k for k in range(n - 1) if toks[k].lower() == role and toks[k + 1] not in ("(", ")")]
             if not idx:
                 return [(join(fmt, toks[:i]), False, "truncate")]
